@@ -12,7 +12,7 @@ LEVEL = "exploration"
 NAMES = ["foo", "bar", "x", "a b", "name", "_priv", "é", "size2", "kids", "Target"]
 assert not any(n in dir(NodeMixin) or n in ("parent", "children", "target") for n in NAMES)
 RULE = (
-    "cases = histories over a growing universe: create a plain node (Node/AnyNode with keyword attributes), create a link (SymlinkNode with "
+    "cases = histories over a growing universe: create a plain node (Node/AnyNode with keyword attributes, or a Node subclass whose attribute 'bar' is a property with a setter), create a link (SymlinkNode with "
     "constructor keyword attributes, or a SymlinkNodeMixin subclass) to any existing node - plain node or link, same or other tree -, "
     "structural calls (parent/children assignment, children deletion) on links and targets, attribute writes through links and on targets, "
     "for attribute names from a pool of 10 (none of them part of the node API). After every step the whole table node x name read through "
@@ -27,8 +27,23 @@ ASSUMPTIONS = [
 ]
 
 
-def value_of(spec):
-    return spec  # ints and strings
+class PropNode(Node):
+    """An ordinary node class whose attribute 'bar' is a property with a setter (a validating / computed attribute).
+
+    Assignments that reach such a target - through a link, a link to a link or a link's constructor keywords -
+    must go through normal attribute assignment, otherwise the property never sees them.
+    """
+
+    @property
+    def bar(self):
+        try:
+            return self.__dict__["_bar_value"]
+        except KeyError:
+            raise AttributeError("bar")
+
+    @bar.setter
+    def bar(self, value):
+        self.__dict__["_bar_value"] = value
 
 
 class World:
@@ -97,9 +112,11 @@ def check_case(case, acc):
         n = len(world.nodes)
         if kind == "new_plain":
             attrs = dict(step[2])
-            if step[1] == "Node":
+            if step[1] in ("Node", "PropNode"):
                 attrs.pop("name", None)  # 'name' is Node's own positional parameter
-                node = Node("n%d" % n, **attrs)
+                if step[1] == "PropNode":
+                    attrs.pop("bar", None)  # Node's own constructor writes keywords into __dict__, behind the property
+                node = (PropNode if step[1] == "PropNode" else Node)("n%d" % n, **attrs)
                 store = dict(attrs, name="n%d" % n)
             else:
                 attrs.setdefault("name", "a%d" % n)
@@ -167,7 +184,7 @@ IDX = st.integers(0, 40)
 @st.composite
 def random_cases(draw):
     step = st.one_of(
-        st.tuples(st.just("new_plain"), st.sampled_from(["Node", "AnyNode"]), ATTRS).map(list),
+        st.tuples(st.just("new_plain"), st.sampled_from(["Node", "AnyNode", "PropNode"]), ATTRS).map(list),
         st.tuples(st.just("new_link"), st.sampled_from(["SymlinkNode", "SymlinkNode", "PlainLink"]), IDX, ATTRS).map(list),
         st.tuples(st.just("new_link"), st.sampled_from(["SymlinkNode", "PlainLink"]), IDX, ATTRS).map(list),
         st.tuples(st.just("set"), IDX, st.sampled_from(NAMES), VALUE).map(list),
@@ -176,13 +193,13 @@ def random_cases(draw):
         st.tuples(st.just("children"), IDX, st.lists(IDX, max_size=3)).map(list),
         st.tuples(st.just("del"), IDX).map(list),
     )
-    first = draw(st.tuples(st.just("new_plain"), st.sampled_from(["Node", "AnyNode"]), ATTRS).map(list))
+    first = draw(st.tuples(st.just("new_plain"), st.sampled_from(["Node", "AnyNode", "PropNode"]), ATTRS).map(list))
     return {"steps": [first] + draw(st.lists(step, min_size=1, max_size=25))}
 
 
 def _systematic_cases(index, count):
     k = 0
-    for cls0 in ("Node", "AnyNode"):
+    for cls0 in ("Node", "AnyNode", "PropNode"):
         for chain in range(1, 4):
             for linkcls in ("SymlinkNode", "PlainLink"):
                 for ctor_kw in ([], [["foo", 1]], [["name", "renamed"], ["bar", "v"]]):
@@ -204,7 +221,7 @@ def _systematic_cases(index, count):
 
 def plan(tier, seed):
     nshards = 16
-    examples = 100 if tier == "quick" else 1500
+    examples = 300 if tier == "quick" else 1500
     tasks = [{"engine": "systematic", "index": i, "count": 4} for i in range(4)]
     tasks += [{"engine": "hyp", "examples": examples, "seed": seed * 1000 + i} for i in range(nshards)]
     return tasks
